@@ -10,11 +10,13 @@ NAN = float("nan")
 
 @st.composite
 def table(draw, max_rows=12, nan=True, min_rows=1, time_index=False, categorical=False,
-          nan_keys=False):
+          nan_keys=False, inf=False):
     n = draw(st.integers(min_rows, max_rows))
     xv = st.integers(-12, 12).map(lambda k: k / 4.0)
     if nan and draw(st.booleans()):
         xv = st.one_of(xv, xv, xv, st.just(None))
+    if inf and draw(st.integers(0, 5)) == 0:
+        xv = st.one_of(xv, xv, xv, st.just("inf"))      # JSON-able spelling of +infinity
     rows = [[draw(xv), draw(st.integers(0, 5)), draw(st.integers(0, 3))] for _ in range(n)]
     # "cat": the key column is categorical with a category that never occurs
     t = {"rows": rows, "gkind": draw(st.sampled_from(["int", "int", "str"] +
@@ -42,7 +44,7 @@ def cuts_for(draw, n, max_cuts=6):
 
 def frame(t, lo=0, hi=None):
     rows = t["rows"][lo:hi]
-    x = [NAN if r[0] is None else r[0] for r in rows]
+    x = [NAN if r[0] is None else (float("inf") if r[0] == "inf" else r[0]) for r in rows]
     y = [r[1] for r in rows]
     g = [r[2] for r in rows]
     if t["gkind"] in ("str", "cat"):
